@@ -426,6 +426,13 @@ static Exec run_one(const Scenario& sc, const std::vector<uint8_t>& prefix, vr::
             }
             ctx.outcome(std::string(kBehNames[sc.beh[i]]) + (sc.timeoutMs[i] ? "/timeout" : "") + " -> " + (o.fulfilled ? "fulfilled" : o.rejected ? "rejected" : "pending"));
         }
+        // a reactor thread stuck before a mutex that is never released (e.g. one it holds itself) can settle nothing
+        for (int a = 0; a < sc.threads && x.ok; ++a)
+            if (ng_is_parked(a) && ng_kind(a) == 1 && !ng_mutex_free(ng_addr(a)))
+            {
+                ctx.violation("c15:reactor-thread-blocked-on-a-mutex-at-quiescence", detail("\"actor\":" + std::to_string(a)));
+                x.ok = false;
+            }
         // a request parked in the client's own queue while a connection to that host sits idle is a lost wake-up
         {
             bool idleConn = false;
@@ -596,6 +603,14 @@ int main(int argc, char** argv)
                     s.timeoutMs.push_back(i == 0 ? 1000 : 0);
                 }
                 gScenarios.push_back(s);
+                // every request of the batch carries a time-out (the hand-over after a time-out arms the next one)
+                if (n >= 2)
+                {
+                    Scenario u = s;
+                    for (int i = 0; i < n; ++i)
+                        u.timeoutMs[i] = 1000;
+                    gScenarios.push_back(u);
+                }
                 // a slow answer that arrives after the time-out has fired
                 if (n >= 2)
                 {
